@@ -68,6 +68,7 @@ type Frame struct {
 	exits   []*Exit
 	defers  []deferred
 	names   map[string][]ssa.Value // source variable name -> SSA values (from DebugRef)
+	cellNames map[string]*ssa.Alloc // locals living in heap cells
 	loops   map[*ssa.BasicBlock]*loopInfo
 	con     *Contract
 	closureBindings map[*ssa.FreeVar]ssa.Value
@@ -466,6 +467,20 @@ func (e *Enc) run(fr *Frame, args []Term, st0 *State, guard Term) []*Exit {
 		for _, ins := range b.Instrs {
 			if d, ok := ins.(*ssa.DebugRef); ok && !d.IsAddr {
 				if id := identName(d); id != "" {
+					if u, isLoad := d.X.(*ssa.UnOp); isLoad && u.Op == token.MUL {
+						if al, isAlloc := u.X.(*ssa.Alloc); isAlloc {
+							// a read of a local that lives in a heap cell (captured by a closure): the name denotes
+							// the cell's content in whatever state the contract expression is evaluated
+							if _, isStruct := al.Type().Underlying().(*types.Pointer).Elem().Underlying().(*types.Struct); !isStruct {
+								if fr.cellNames == nil {
+									fr.cellNames = map[string]*ssa.Alloc{}
+								}
+								if _, dup := fr.cellNames[id]; !dup {
+									fr.cellNames[id] = al
+								}
+							}
+						}
+					}
 					fr.names[id] = append(fr.names[id], d.X)
 				}
 			}
@@ -475,6 +490,14 @@ func (e *Enc) run(fr *Frame, args []Term, st0 *State, guard Term) []*Exit {
 					if _, isStruct := al.Type().Underlying().(*types.Pointer).Elem().Underlying().(*types.Struct); isStruct {
 						if id := identName(d); id != "" {
 							fr.names[id] = append(fr.names[id], d.X)
+						}
+					} else if id := identName(d); id != "" {
+						// a local kept in a heap cell (captured by a closure): the name denotes the cell's content
+						if fr.cellNames == nil {
+							fr.cellNames = map[string]*ssa.Alloc{}
+						}
+						if _, dup := fr.cellNames[id]; !dup {
+							fr.cellNames[id] = al
 						}
 					}
 				}
